@@ -193,6 +193,12 @@ pub fn run(path: &str, out_dir: &str, n: i64) -> Result<Value, String> {
             continue;
         }
         // ---- C07: the final workbook rebuilt in other ways shows the same values
+        // (a workbook whose meaning the specification does not fix - a spill whose height depends on its own
+        // spill - has no order-independent meaning to preserve either: no verdict)
+        if steps.last().and_then(|st| st["shown"].as_array()).map(|a| a.iter().any(|v| v["e"] == "NOV")).unwrap_or(false) {
+            rep.no_verdict += 1;
+            continue;
+        }
         let reference: Vec<Value> = cells.iter().map(|&d| shown(&um, n, d)).collect();
         let filled: Vec<i64> = content.iter().filter(|(_, x)| x["k"] != "empty").map(|(c, _)| *c).collect();
         let mut orders: Vec<(&str, Vec<i64>)> = vec![("forward", filled.clone()), ("reverse", filled.iter().rev().cloned().collect())];
